@@ -237,7 +237,10 @@ def run(ctx, rep):
     rep.check(top.get('.provides') == '0' and top.get('.requires') == '1', 'R4', 'build/top-level', '%s:%d' % (bf.file, bf.line),
               'top level provides <- front.0, requires <- front.1', 'top-level group is assigned from %s' % top)
     ors = []
+    cands = {}
     for f in reach + [g for f0 in reach for g in prog.closures_of(f0)]:
+        cands[f.path] = f
+    for f in cands.values():
         for b in f.blocks:
             for st in b['s']:
                 if st[0] == '=' and st[2]['r'] == 'agg' and st[2].get('adt') == 'libcnb_data::build_plan::Or':
